@@ -87,8 +87,12 @@ def run_case(case):
     dirrun.write_dir(d, files)
     recs = []
     spell = lambda v: rng.choice(['%08X', '0x%08X', '%08x', '0X%08x', '0x%08x']) % v
-    for _ in range(case['nq']):
+    import re as _re
+    named = _re.search(r'[0-9A-F]{8}', os.path.basename(d))
+    for qn in range(case['nq']):
         kind = rng.choice(['plid', 'plid', 'bmc', 'id', 'src', 'srcex'])
+        if qn < 2:
+            kind = 'id'              # (the first two look-ups are by entry id: see the directory's name)
         q = dict(kind=kind)
         if kind == 'plid':
             v = rng.choice(PLIDS + [encode.b2i(a['plid']) for a in fattrs])
@@ -100,6 +104,8 @@ def run_case(case):
             argv = ['--bmc-id', q['spelling']]
         elif kind == 'id':
             v = rng.choice(eids + [0x5EEEEEEE, 0x00001235])
+            if named and qn == 0:
+                v = int(named.group(0), 16)         # the id the directory is named after (stored there, or not)
             q.update(id=project.cp('%08X' % v), spelling=spell(v))
             argv = ['-i', q['spelling']]
         elif kind == 'src':
